@@ -102,7 +102,8 @@ func bit(i int) uint64 {
 // racing termination" (termination of the old owner overlapping its node-level
 // unregistration may clear the name whoever owns it). They are used only to
 // attribute a violation found with the strict model to a known root cause.
-func nameModel(relaxA, relaxB bool) porcupine.Model {
+func nameModel(relaxA, relaxB bool, relaxE ...bool) porcupine.Model {
+	relaxEv := len(relaxE) > 0 && relaxE[0]
 	nm := porcupine.NondeterministicModel{
 		Init: func() []interface{} { return []interface{}{nState{Owner: -1}} },
 		Step: func(state, input, output interface{}) []interface{} {
@@ -123,7 +124,7 @@ func nameModel(relaxA, relaxB bool) porcupine.Model {
 					s.Owner = out.Who
 					return one(s)
 				case "taken":
-					if s.Owner == -1 && !in.Flag && !(relaxB && s.Vict&bit(in.Who) != 0) {
+					if s.Owner == -1 && !in.Flag && !((relaxA || relaxB) && s.Vict&bit(in.Who) != 0) {
 						return nil
 					}
 					return one(s)
@@ -165,6 +166,16 @@ func nameModel(relaxA, relaxB bool) porcupine.Model {
 				case "ok":
 					if s.Owner == -1 || (s.Owner != out.Who && out.Who != -4) {
 						return nil
+					}
+					if relaxB && out.Who == -4 {
+						// the entry was removed while SpawnRegister was still constructing its process:
+						// spawn sets the one-name flag afterwards, so that process keeps believing it
+						// holds the name
+						c := s
+						c.Vict |= bit(s.Owner)
+						c.Owner = -1
+						s.Owner = -1
+						return []interface{}{s, c}
 					}
 					s.Owner = -1
 					return one(s)
@@ -216,12 +227,16 @@ func nameModel(relaxA, relaxB bool) porcupine.Model {
 					}
 					return one(c)
 				}
-				if relaxB && (in.RaceB || s.Vict&bit(in.Who) != 0) && s.Owner != -1 {
+				// (relaxA: a RegisterName for this process is in flight, so its one-name flag may be
+				// set while p.name still holds the name of an earlier registration: the termination
+				// then deletes that name's entry, whoever owns it)
+				if ((relaxB && in.RaceB) || (relaxA && in.RaceA) || ((relaxA || relaxB || relaxEv) && s.Vict&bit(in.Who) != 0)) && s.Owner != -1 {
 					// the known race: a process that still believes it holds the name deletes the
 					// entry of whoever holds it now; that one becomes the next such process
 					c := s
 					c.Vict |= bit(s.Owner)
 					c.Owner = -1
+					c.Tok = gen.Ref{}
 					return []interface{}{s, c}
 				}
 				return one(s)
@@ -265,6 +280,16 @@ func nameModel(relaxA, relaxB bool) porcupine.Model {
 					if in.Flag && s.Owner != in.Who {
 						// two overlapping unregistrations by the same owner may both report success
 						// (the entry is checked, then deleted); the second one removes nothing
+						if relaxEv && s.Owner != -1 {
+							// ... or, the known race, the registration somebody else made in between
+							// (that owner goes on believing it holds the event and deletes the entry,
+							// whoever owns it, when it terminates)
+							c := s
+							c.Vict |= bit(s.Owner)
+							c.Owner = -1
+							c.Tok = gen.Ref{}
+							return []interface{}{s, c}
+						}
 						return one(s)
 					}
 					if s.Owner == -1 || s.Owner != in.Who {
@@ -341,7 +366,11 @@ type recOp struct {
 	call, ret int64
 	client    int
 	pingID    int64 // resolve by send: decided after the run from the receivers' logs
-	pid       gen.PID // owner reported as a pid: mapped to a claimer index after the run (a spawn may still be in flight)
+	// owner reported as a pid: mapped to a claimer index after the run (a spawn may still be in
+	// flight). Only the numeric words are kept: UnregisterName may return the pid of a process
+	// that spawn() is still constructing, a torn value whose Node string must not be touched.
+	pidID       uint64
+	pidCreation int64
 	hasPid    bool
 	drop      bool  // no information / no effect
 }
@@ -525,7 +554,7 @@ func nameWorker(lc *linCase, pt *partition, client int, rng *rand.Rand, n int, r
 			o.ret = hk.Tick()
 			o.out = nOut{Res: classify(err), Who: -1, Err: errStr(err)}
 			if err == nil {
-				o.pid, o.hasPid = pid, true
+				o.pidID, o.pidCreation, o.hasPid = pid.ID, pid.Creation, true
 			}
 			rec(o)
 		case x < 61: // Process.UnregisterName
@@ -570,6 +599,16 @@ func nameWorker(lc *linCase, pt *partition, client int, rng *rand.Rand, n int, r
 			ran, werr := inProc(resolver, func(p *actors.Probe) error { v, err = p.CallWithTimeout(pt.name, "who", 1); return nil })
 			o.ret = hk.Tick()
 			if werr != nil || !ran {
+				if resolver.panicked != "" {
+					// the Call by name panicked inside the framework (the resolver process died of it)
+					lc.stallMu.Lock()
+					if len(lc.panics) < 3 {
+						lc.panics = append(lc.panics, resolver.panicked)
+					}
+					lc.stallMu.Unlock()
+					resolver = nil
+					continue
+				}
 				lc.stalled("watchdog: resolver did not answer")
 				return ops
 			}
@@ -579,7 +618,7 @@ func nameWorker(lc *linCase, pt *partition, client int, rng *rand.Rand, n int, r
 			case err == nil:
 				pid, _ := v.(gen.PID)
 				o.out = nOut{Res: "ok", Who: -3}
-				o.pid, o.hasPid = pid, true
+				o.pidID, o.pidCreation, o.hasPid = pid.ID, pid.Creation, true
 			default:
 				o.drop = true // timeout / terminated: no information
 				o.out = nOut{Res: "noinfo", Who: -1, Err: errStr(err)}
@@ -757,6 +796,7 @@ func recheck(path string) {
 		markRaces(ops)
 		sig, to := decide(ops, events)
 		fmt.Printf("%s: %d operations: sig=%q timeout=%v first_unexplained=%s\n", v.ID, len(ops), sig, to, firstUnexplained(ops))
+		fmt.Printf("   most relaxed model: first_unexplained=%s\n", firstUnexplainedBy(nameModel(true, true, true), ops))
 	}
 	for _, p := range v.Detail.NL {
 		one(p.Raw, false)
@@ -764,6 +804,21 @@ func recheck(path string) {
 	if len(v.Detail.Raw) > 0 {
 		one(v.Detail.Raw, true)
 	}
+}
+
+func descClaimers(hs []*handle) []string {
+	var out []string
+	for _, h := range hs {
+		st := "alive"
+		if h.isDead() {
+			st = fmt.Sprintf("terminated: %v", h.reason)
+			if h.panicked != "" {
+				st += " PANIC IN CLOSURE: " + h.panicked
+			}
+		}
+		out = append(out, fmt.Sprintf("#%d %s %s (%s)", h.idx, h.pid, st, h.label))
+	}
+	return out
 }
 
 func fmtHistory(ops []recOp) []string {
@@ -804,12 +859,16 @@ func overlappingClaims(ops []recOp) (claims, claimTerm int) {
 // firstUnexplained: the operation (in call order) at which the history stops being explainable;
 // a reading aid for the witness, not part of the verdict
 func firstUnexplained(ops []recOp) string {
+	return firstUnexplainedBy(nameModel(false, false), ops)
+}
+
+func firstUnexplainedBy(model porcupine.Model, ops []recOp) string {
 	s := append([]recOp(nil), ops...)
 	sort.Slice(s, func(i, j int) bool { return s[i].call < s[j].call })
 	lo, hi := 0, len(s)
 	for lo < hi {
 		mid := (lo + hi) / 2
-		if porcupine.CheckOperationsTimeout(nameModel(false, false), toPorcupine(s[:mid+1]), 10*time.Second) == porcupine.Illegal {
+		if porcupine.CheckOperationsTimeout(model, toPorcupine(s[:mid+1]), 10*time.Second) == porcupine.Illegal {
 			hi = mid
 		} else {
 			lo = mid + 1
@@ -832,6 +891,9 @@ func decide(ops []recOp, events bool) (sig string, timeout bool) {
 		return "", true
 	}
 	if events {
+		if porcupine.CheckOperationsTimeout(nameModel(false, false, true), h, 30*time.Second) == porcupine.Ok {
+			return "unregisterevent-check-then-delete-drops-new-owner", false
+		}
 		return "event-history-not-linearizable", false
 	}
 	if porcupine.CheckOperationsTimeout(nameModel(true, false), h, 30*time.Second) == porcupine.Ok {
@@ -921,10 +983,10 @@ func runNameLin(k int) {
 	}
 	if len(lc.panics) > 0 {
 		sig := "registry-call-panics"
-		if strings.Contains(lc.panics[0], "RouteSendProcessID") && strings.Contains(lc.panics[0], "nil pointer") {
+		if (strings.Contains(lc.panics[0], "RouteSendProcessID") || strings.Contains(lc.panics[0], "RouteCallProcessID")) && strings.Contains(lc.panics[0], "nil pointer") {
 			sig = "send-to-name-during-spawn-nil-mailbox"
 		}
-		r.fail(sig, "Node.Send to a registered name panicked inside the framework while a SpawnRegister of that name was in progress (the name is published before the process has a mailbox): %s", strings.SplitN(lc.panics[0], "\n", 2)[0])
+		r.fail(sig, "a send or Call to a registered name panicked inside the framework while a SpawnRegister of that name was in progress (the name is published before the process has a mailbox): %s", strings.SplitN(lc.panics[0], "\n", 2)[0])
 	}
 
 	var events int64
@@ -944,7 +1006,7 @@ func runNameLin(k int) {
 			o.ret = hk.Tick()
 			o.out = nOut{Res: classify(err), Who: -1, Err: errStr(err)}
 			if err == nil {
-				o.pid, o.hasPid = pid, true
+				o.pidID, o.pidCreation, o.hasPid = pid.ID, pid.Creation, true
 			}
 			fin(o)
 		}
@@ -987,14 +1049,14 @@ func runNameLin(k int) {
 		for i := range ops {
 			if ops[i].hasPid {
 				ops[i].out.Who = -3 // a pid that is not a claimer of this partition
-				if ops[i].pid == (gen.PID{}) {
+				if ops[i].pidID == 0 {
 					// UnregisterName of a name whose SpawnRegister is still constructing the process
 					// reports the zero pid: owner unknown
 					ops[i].out.Who = -4
 					zeroPidUnreg.Add(1)
 				}
 				for _, h := range pt.claimers {
-					if h.pid == ops[i].pid {
+					if h.pid.ID == ops[i].pidID && h.pid.Creation == ops[i].pidCreation {
 						ops[i].out.Who = h.idx
 					}
 				}
@@ -1021,13 +1083,28 @@ func runNameLin(k int) {
 		nClaims += c
 		nClaimTerm += ct
 		events += int64(len(ops))
-		if r.incon == "" {
+		// a claimer whose closure panicked inside the framework: an observation of its own; the
+		// history is not checked then (the process died without a terminate operation)
+		panicked := false
+		for _, h := range pt.claimers {
+			if h.panicked != "" {
+				panicked = true
+				first := strings.SplitN(h.panicked, "\n", 2)[0]
+				sig := "registry-call-panics-in-process"
+				if strings.Contains(h.panicked, "(*process).UnregisterName") && strings.Contains(h.panicked, "nil pointer") {
+					sig = "process-name-torn-read-panics"
+				}
+				r.fail(sig, "claimer #%d %s: a registry call made by the process itself panicked inside the framework (%s) while other goroutines used Node.RegisterName/UnregisterName for it; the process terminated with reason %v", h.idx, h.pid, first, h.reason)
+				illegal = append(illegal, map[string]any{"name": pt.name, "panic": h.panicked})
+			}
+		}
+		if r.incon == "" && !panicked {
 			sig, to := decide(ops, false)
 			if to {
 				r.inconclusive("porcupine: timeout on partition %d (%d operations)", pi, len(ops))
 			} else if sig != "" {
 				r.fail(sig, "the history of name %q (%d operations by %d clients over %d claimers) has no linearization against owner∈{none,pid} with claims only by live processes", pt.name, len(ops), workers+1, len(pt.claimers))
-				illegal = append(illegal, map[string]any{"name": pt.name, "first_unexplained": firstUnexplained(ops), "history": fmtHistory(ops), "raw": rawHistory(ops)})
+				illegal = append(illegal, map[string]any{"name": pt.name, "first_unexplained": firstUnexplained(ops), "history": fmtHistory(ops), "raw": rawHistory(ops), "claimers": descClaimers(pt.claimers)})
 			}
 		}
 		hist[pi] = ops
